@@ -111,6 +111,33 @@ def per_path(ctx, po, sh):
         if inc:
             continue
         orc = slots.Oracle(po.spec, ev)
+        if po.spec.kind == 'enum':
+            # enums: by-ref vs owned and Try vs plain on the generated `match` (the arm structure itself is C02's subject)
+            for ka, kb, what in [(('FromOwned', f), ('FromRef', f), 'ref-vs-owned') for f in (False, True)] + [(('OwnedInto', f), ('RefInto', f), 'ref-vs-owned') for f in (False, True)] + \
+                              [((k, False), (k, True), 'try-vs-plain') for k in ('FromOwned', 'FromRef', 'OwnedInto', 'RefInto')]:
+                if ka not in decs or kb not in decs:
+                    continue
+                same_instrs = all(((orc.winner(m, ka[0], ka[1], 'X') or (None, None))[0], id((orc.winner(m, ka[0], ka[1], 'X') or (None, None))[1])) ==
+                                  ((orc.winner(m, kb[0], kb[1], 'X') or (None, None))[0], id((orc.winner(m, kb[0], kb[1], 'X') or (None, None))[1]))
+                                  for v in po.spec.members for m in [v] + list(getattr(v, 'fields', None) or []))
+                if not same_instrs:
+                    continue
+                da, db = decs[ka], decs[kb]
+                why = None
+                if da['lets'] != db['lets'] or da['tail'] != db['tail']:
+                    why = 'generated match differs: %s vs %s' % (da['tail'][:200], db['tail'][:200])
+                elif what == 'try-vs-plain' and not db['ok_wrapped']:
+                    why = 'fallible flavour does not wrap the result in Ok(..)'
+                ctx.cov['queries']['unsat' if why is None else 'sat'] += 1
+                if why and (what, ka, kb) not in reported:
+                    reported.add((what, ka, kb))
+                    text = po.spec.text(ev)
+                    nat = ctx.replay.run(text)
+                    if nat['status'] == 'ok' and expander.flat_text(nat['out']) == expander.flat(po.tokens):
+                        ctx.violation('flavour-agreement', '%s/enum' % what, '%s %s vs %s: %s' % (what, ka, kb, why), {'input': text, 'output': nat['out'][:2500]})
+                    else:
+                        ctx.inconclusive.append('C07 counterexample does not reproduce natively: %s' % text)
+            continue
         try:
             expd = orc.expected()
         except KeyError:
@@ -210,7 +237,7 @@ def docs_kinds():
 
 
 def body(ctx):
-    ctx.cov['outside_claim'] = ['runtime part: a few seeded programs only (enumeration over programs, Kani over all field values)', 'flattened child/parent mappings (get_for_kind chain is covered by C05)', 'enums',
+    ctx.cov['outside_claim'] = ['runtime part: a few seeded programs only (enumeration over programs, Kani over all field values)', 'flattened child mappings (C03)', 'into_existing on enums (C17 finding)',
                                 'a `?` inside a user expression (token-level: the expression is copied verbatim into every flavour, see C10)']
     ctx.assumptions = ['"the same instructions apply" is evaluated with the documented precedence chain (oracle), for every model of the path condition', 'decoder is structural; predicted == real tokens per path']
     expander.sweep(ctx, ['c07'], per_path)
